@@ -1,6 +1,9 @@
 #include <occa/internal/modes/serial/device.hpp>
 #include <occa/internal/modes/serial/buffer.hpp>
 #include <occa/internal/modes/serial/memory.hpp>
+#ifdef LIBOCCA_OCCA_VERIF
+#include <occa/internal/utils/verif.hpp>
+#endif
 
 namespace occa {
 
@@ -11,10 +14,16 @@ namespace occa {
     dtype_(&dtype::byte),
     size(size_),
     offset(offset_) {
+#ifdef LIBOCCA_OCCA_VERIF
+    verif::created(verif::kMemory, this);
+#endif
     modeBuffer->addModeMemoryRef(this);
   }
 
   modeMemory_t::~modeMemory_t() {
+#ifdef LIBOCCA_OCCA_VERIF
+    verif::destroyed(verif::kMemory, this);
+#endif
     // NULL all wrappers
     while (memoryRing.head) {
       memory *mem = (memory*) memoryRing.head;
